@@ -41,8 +41,10 @@ build() { # <id-lower> <variant>
 case "${1:-}" in
   setup)
     rc=0
-    for d in harness/cmd/*/; do
-      id=$(basename $d)
+    # only the checks claimed in MANIFEST.json are built (work in progress must not break setup)
+    for ID_ in $(jq -r '.checks[].property_id' MANIFEST.json); do
+      id=${ID_,,}
+      [ -d harness/cmd/$id ] || continue
       v=$(variant_of ${id^^} quick)
       echo "== building $id ($v)"
       build $id $v >/dev/null || rc=1
